@@ -287,7 +287,8 @@ def main_check(pid: str, tier: str, seed: int) -> int:
     for k, v in sorted(agg.sets.items()):
         print(f"  set {k}: {len(v)} distinct")
     for k, n in sorted(seen_known.items()):
-        print(f"KNOWN-FINDING: property={pid} {k} ({n}x) {known[k].get('summary', '')}")
+        summ = " ".join(str(known[k].get("summary", "")).split())[:240]
+        print(f"KNOWN-FINDING: property={pid} {' '.join(k.split())} ({n}x) {summ}")
     if vio_lines:
         for k, summ, path, n in vio_lines[:20]:
             print(f"VIOLATION property={pid} replay={path}")
